@@ -26,6 +26,7 @@ RULE = ("pairs and triples of corpus scripts (all verbs and transfer kinds) on d
 ASSUMPTIONS = ["MemoryPathIO back end shared by all sessions of the server (as in production: one state per server)",
                "pinned clock for file times"]
 REQUIRED_MONITORS = ["transcript_vs_solo", "tree_vs_solo", "backend_prefix"]
+ANCHOR_FUNCTIONS = ['server.py:Server.dispatcher', 'server.py:Server.rnfr', 'server.py:Server.cwd']
 EXHAUSTIVE = {"quick": False, "thorough": False}
 
 NAMES = ["walk", "mkd_rmd", "stor_pasv", "stor_epsv_after", "appe", "retr_pasv", "retr_epsv_after", "retr_rest", "stor_rest", "list",
